@@ -20,11 +20,12 @@ Definition C06_cache_sound_full_statement : Prop :=
     forall acc v b, snd (read hk (run repo hk s pre) p m a k) = Some (acc, v, b) ->
     exists n, find_node (run repo hk s pre) p = Some n /\ v = fresh (run repo hk s pre) n m a k.
 
-(* -------- cache_sound ([repo] = /repo with the fix: commits of D19/D60, D61, D63, S11, D64, D66, D67 and of the lock graph: D7, D55).
+(* -------- cache_sound ([repo] = /repo with the fix: commits of D19/D60, D61, D63, S11, D64, D66, D67, D68, D69 and of the lock graph: D7, D55).
    Any tree of TensorDicts (any depth, any locked sub-forest with its lock graph), any interleaving of memoised reads (hit, miss,
    not locked; verification hook on or off), in-place writes, lock_/unlock_ at any node (accepted or refused), structural writes
    (accepted where the owner is unlocked, refused under lock) AND the writes that are accepted under lock — non-tensor promotion,
-   make_memmap / _from_tensor / _from_storage, names and batch_size assignment at any node, memmap_() of any node (locked or not,
+   make_memmap / _from_tensor / _from_storage (plain key, or a nested key that binds a new nested tensordict), names and
+   batch_size assignment at any node, memmap_() of any node (locked or not,
    with locked or unlocked nodes below it): every read returns exactly what a fresh computation returns.  Hypotheses: objects
    occurring in the calls are determined by their address (guaranteed by CPython now that every entry keeps its arguments alive,
    D67), keyword arguments listed in sorted order.
@@ -76,8 +77,8 @@ Theorem C06_key_injective_refuted : exists a a' k, a <> a' /\ make_cache_key a k
 Proof. exact key_injective_needs_liveness. Qed.
 Print Assumptions C06_key_injective_refuted.
 (* -------- unlock_erases: after unlock_ (accepted or refused) no node at or below holds an entry; lock_ adds none *)
-Theorem C06_unlock_erases : forall s p n,
-  In n (nodes (fst (unlock_ s p))) -> is_prefix p (n_path n) = true -> snd (unlock_ s p) <> NoSuchTarget -> n_cache n = [].
+Theorem C06_unlock_erases : forall fx s p n,
+  In n (nodes (fst (unlock_ fx s p))) -> is_prefix p (n_path n) = true -> snd (unlock_ fx s p) <> NoSuchTarget -> n_cache n = [].
 Proof. exact unlock_erases. Qed.
 Print Assumptions C06_unlock_erases.
 
@@ -106,13 +107,14 @@ Proof. exact memmap_nested_unlock_refused. Qed.
 Print Assumptions C06_memmap_nested_unlock_refused.
 
 (* the history that D62 recorded (memmap_(); read; n.unlock_(); n.set(new); n.lock_(); read), from an unlocked tree: memmap_()
-   flags every node and registers the nested node under the root; the nested unlock is refused and leaves flags and parents as
-   they were; the structural write is refused; the root's memoised flatten_keys is a sound hit *)
+   flags every node and registers the nested node under the root; the nested unlock is refused and leaves the lock flags, the
+   parents and (D68 repaired) the memmap flags as they were; the structural write is refused; the root's memoised flatten_keys is
+   a sound hit *)
 Theorem C06_memmap_subtree_unlock_refused :
   let s1 := fst (step repo false w_plain (OMemmap [] 100)) in
   lock_graph s1 = [([], Some true, [], true); (["n"], Some true, [[]], true)]
   /\ snd (step repo false s1 (OUnlock ["n"])) = RaisedLock
-  /\ lock_graph (fst (step repo false s1 (OUnlock ["n"]))) = [([], Some true, [], true); (["n"], Some true, [[]], false)]
+  /\ lock_graph (fst (step repo false s1 (OUnlock ["n"]))) = lock_graph s1
   /\ outcomes repo false w_plain memmap_then_subtree_unlock = [Done; Done; RaisedLock; RaisedLock; Done]
   /\ exists v n, snd (read false (run repo false w_plain memmap_then_subtree_unlock) [] MFlattenKeys [] []) = Some (Hit, v, None)
                  /\ find_node (run repo false w_plain memmap_then_subtree_unlock) [] = Some n
@@ -120,13 +122,40 @@ Theorem C06_memmap_subtree_unlock_refused :
 Proof. exact memmap_subtree_unlock_refused. Qed.
 Print Assumptions C06_memmap_subtree_unlock_refused.
 
-(* ... and what the library did before the repair ([unrepaired]): nothing registered, every call accepted, a stale hit *)
+(* D68: before its repair the refused unlock_ left _is_memmap of the node that tried cleared *)
+Example C06_ex_unrepaired_refused_unlock_clears_memmap :
+  let s1 := fst (step before_D68 false w_plain (OMemmap [] 100)) in
+  snd (step before_D68 false s1 (OUnlock ["n"])) = RaisedLock
+  /\ lock_graph (fst (step before_D68 false s1 (OUnlock ["n"]))) = [([], Some true, [], true); (["n"], Some true, [[]], false)].
+Proof. exact unrepaired_refused_unlock_clears_memmap. Qed.
+
+(* ... and what the library did before the repair of D7 ([unrepaired]): nothing registered, every call accepted, a stale hit *)
 Theorem C06_unrepaired_refuted_memmap_subtree_unlock :
   lock_graph (fst (step unrepaired false w_plain (OMemmap [] 100))) = [([], Some true, [], true); (["n"], Some true, [], true)]
   /\ outcomes unrepaired false w_plain memmap_then_subtree_unlock = [Done; Done; Done; Done; Done]
   /\ stale_hit (run unrepaired false w_plain memmap_then_subtree_unlock) [] MFlattenKeys [] [].
 Proof. exact unrepaired_memmap_subtree_unlock. Qed.
 Print Assumptions C06_unrepaired_refuted_memmap_subtree_unlock.
+
+(* -------- D69 repaired: make_memmap* with a nested key binds a nested tensordict that is locked under the locked tree (it is one
+   of the permitted operations of C06_cache_sound); the history that D69 recorded, before and after *)
+Theorem C06_nested_make_memmap_attached_locked :
+  lock_graph (run repo false w_mm [OMakeMemmapNested ["mn"] 50 "x" mm_leaf])
+  = [([], Some true, [], true); (["n"], Some true, [[]], true); (["mn"], Some true, [[]], true)]
+  /\ outcomes repo false w_mm (nested_make_memmap_ops ++ [OUnlock ["mn"]]) = [Done; Done; Done; RaisedLock; RaisedLock]
+  /\ exists v n, snd (read false (run repo false w_mm nested_make_memmap_ops) [] MFlattenKeys [] []) = Some (Hit, v, None)
+                 /\ find_node (run repo false w_mm nested_make_memmap_ops) [] = Some n
+                 /\ v = fresh (run repo false w_mm nested_make_memmap_ops) n MFlattenKeys [] [].
+Proof. exact nested_make_memmap_attached_locked. Qed.
+Print Assumptions C06_nested_make_memmap_attached_locked.
+
+Theorem C06_unrepaired_refuted_nested_make_memmap :
+  lock_graph (run before_D69 false w_mm [OMakeMemmapNested ["mn"] 50 "x" mm_leaf])
+  = [([], Some true, [], true); (["n"], Some true, [[]], true); (["mn"], Some false, [], false)]
+  /\ outcomes before_D69 false w_mm nested_make_memmap_ops = [Done; Done; Done; Done]
+  /\ stale_hit (run before_D69 false w_mm nested_make_memmap_ops) [] MFlattenKeys [] [].
+Proof. exact unrepaired_nested_make_memmap. Qed.
+Print Assumptions C06_unrepaired_refuted_nested_make_memmap.
 
 (* -------- what remains refuted *)
 (* D65: in-place writes alone suffice when a lazy stack is involved: its memoised flatten_keys holds stacked copies *)
@@ -179,7 +208,7 @@ Example C06_ex_derived_lock_not_memoised :
 Proof. exact derived_lock_not_memoised. Qed.
 Example C06_ex_permitted_history : Forall (permitted_op [none_obj; nontensor_fn])
   [ORead [] MFlattenKeys [] []; OPromote ["nt"] (lfNS 20 20); OSetNames [] (Some ["u"]); OSetBatchSize ["n"] []; OInplace ["a"] 7%Z; OUnlock []; OLock [];
-   OMemmap [] 100; OMemmap ["n"] 300].
+   OMemmap [] 100; OMemmap ["n"] 300; OMakeMemmapNested ["mn"] 50 "x" mm_leaf].
 Proof.
   apply Forall_cons; [split; [split; [intros o []|reflexivity]|intros o []]|]. repeat (apply Forall_cons; [exact I|]). constructor.
 Qed.
